@@ -301,6 +301,60 @@ func newWorld(flags Flags) (*world, error) {
 			"z": {Type: graphql.FloatType, DefaultValue: schema.Null},
 		},
 		Resolve: dump("withDefault")})
+	// asymmetric wrapper chains around user-defined types, at output, argument and input-field
+	// positions ([T!] vs [T]!, [[T!]]!): a clone that rebuilds the chain differently changes nullability
+	boxType := &graphql.InputObjectType{Name: "Box"}
+	boxType.Fields = map[string]*graphql.InputValueDefinition{
+		"items": {Type: graphql.NewListType(graphql.NewNonNullType(inType))},
+		"req":   {Type: graphql.NewNonNullType(graphql.NewListType(colorType))},
+		"deep":  {Type: graphql.NewListType(graphql.NewNonNullType(graphql.NewListType(colorType)))},
+	}
+	mkThings := func(ctx graphql.FieldContext) (interface{}, error) {
+		w.logCall("mkThings" + argsDump(ctx.Arguments))
+		out := []interface{}{&thing{ID: "i0", Name: "item 0", N: 0}}
+		if b, _ := ctx.Arguments["withNull"].(bool); b {
+			out = append(out, nil)
+		}
+		return append(out, &thing{ID: "i2", Name: "item 2", N: 2}), nil
+	}
+	withNull := map[string]*graphql.InputValueDefinition{"withNull": {Type: graphql.BooleanType, DefaultValue: false}}
+	q("itemsA", &graphql.FieldDefinition{Type: graphql.NewListType(graphql.NewNonNullType(thingType)), Arguments: withNull, Resolve: mkThings})
+	q("itemsB", &graphql.FieldDefinition{Type: graphql.NewNonNullType(graphql.NewListType(thingType)), Arguments: withNull, Resolve: mkThings})
+	q("grid", &graphql.FieldDefinition{Type: graphql.NewNonNullType(graphql.NewListType(graphql.NewListType(graphql.NewNonNullType(thingType)))), Arguments: withNull,
+		Resolve: func(ctx graphql.FieldContext) (interface{}, error) {
+			row, _ := mkThings(ctx)
+			return []interface{}{row, nil}, nil
+		}})
+	q("palette", &graphql.FieldDefinition{Type: graphql.NewListType(graphql.NewNonNullType(colorType)), Arguments: withNull,
+		Resolve: func(ctx graphql.FieldContext) (interface{}, error) {
+			if b, _ := ctx.Arguments["withNull"].(bool); b {
+				return []interface{}{"red", nil}, nil
+			}
+			return []interface{}{"red", "blue"}, nil
+		}})
+	q("paletteB", &graphql.FieldDefinition{Type: graphql.NewNonNullType(graphql.NewListType(colorType)), Arguments: withNull,
+		Resolve: func(ctx graphql.FieldContext) (interface{}, error) {
+			if b, _ := ctx.Arguments["withNull"].(bool); b {
+				return []interface{}{"red", nil}, nil
+			}
+			return []interface{}{"green"}, nil
+		}})
+	q("paint", &graphql.FieldDefinition{Type: graphql.StringType, Arguments: args("colors", graphql.NewListType(graphql.NewNonNullType(colorType))), Resolve: dump("paint")})
+	q("paintB", &graphql.FieldDefinition{Type: graphql.StringType, Arguments: args("colors", graphql.NewNonNullType(graphql.NewListType(colorType))), Resolve: dump("paintB")})
+	q("insA", &graphql.FieldDefinition{Type: graphql.StringType, Arguments: args("ins", graphql.NewListType(graphql.NewNonNullType(inType))), Resolve: dump("insA")})
+	q("insB", &graphql.FieldDefinition{Type: graphql.StringType, Arguments: args("ins", graphql.NewNonNullType(graphql.NewListType(inType))), Resolve: dump("insB")})
+	q("echoBox", &graphql.FieldDefinition{Type: graphql.StringType, Arguments: args("box", boxType), Resolve: dump("echoBox")})
+	q("gatedB", &graphql.FieldDefinition{Type: graphql.StringType, RequiredFeatures: graphql.NewFeatureSet("featB"),
+		Resolve: func(ctx graphql.FieldContext) (interface{}, error) {
+			w.logCall("gatedB")
+			return "behind featB", nil
+		}})
+	q("gatedAB", &graphql.FieldDefinition{Type: graphql.IntType, RequiredFeatures: graphql.NewFeatureSet("featA", "featB"), Cost: graphql.FieldResolverCost(4),
+		Arguments: map[string]*graphql.InputValueDefinition{"x": {Type: graphql.IntType, DefaultValue: 1}},
+		Resolve: func(ctx graphql.FieldContext) (interface{}, error) {
+			w.logCall("gatedAB" + argsDump(ctx.Arguments))
+			return ctx.Arguments["x"], nil
+		}})
 	q("gated", &graphql.FieldDefinition{Type: graphql.StringType, RequiredFeatures: graphql.NewFeatureSet("featA"),
 		Resolve: func(ctx graphql.FieldContext) (interface{}, error) {
 			w.logCall("gated")
@@ -394,7 +448,7 @@ func newWorld(flags Flags) (*world, error) {
 	mux := http.NewServeMux()
 	withFeat := func(f func(http.ResponseWriter, *http.Request)) http.HandlerFunc {
 		return func(rw http.ResponseWriter, r *http.Request) {
-			f(rw, r.WithContext(baseContext(r.Context())))
+			f(rw, r.WithContext(baseContext(r.Context(), r.Header.Get(featHeader))))
 		}
 	}
 	mux.HandleFunc("/graphql", withFeat(api.ServeGraphQL))
@@ -410,10 +464,26 @@ func defaultCost(on bool) graphql.FieldCost {
 	return graphql.FieldCost{}
 }
 
-// baseContext is the context every incoming request (HTTP request, WebSocket upgrade) carries: the
-// principal's features. Config.Features reads them from there.
-func baseContext(ctx context.Context) context.Context {
-	return context.WithValue(ctx, featKey, graphql.NewFeatureSet("featA"))
+// featHeader carries the principal's features on every incoming request (HTTP request, WebSocket
+// upgrade): a comma-separated list. The server wrapper puts them into the request context, where
+// Config.Features (when configured) reads them — per request on HTTP, once per connection on
+// WebSocket.
+const featHeader = "X-C17-Features"
+
+var featChoices = []string{"", "featA", "featA,featB", "featB"}
+
+func parseFeats(s string) graphql.FeatureSet {
+	var fs []string
+	for _, f := range strings.Split(s, ",") {
+		if f != "" {
+			fs = append(fs, f)
+		}
+	}
+	return graphql.NewFeatureSet(fs...)
+}
+
+func baseContext(ctx context.Context, feats string) context.Context {
+	return context.WithValue(ctx, featKey, parseFeats(feats))
 }
 
 func featuresFromContext(ctx context.Context) graphql.FeatureSet {
